@@ -17,8 +17,10 @@
    (e) on the real code: permuting rows and scaling rows by powers of two must not change the
        pivot rows chosen nor (bitwise) the solution  -- this is where candidate defect D25 shows.
 4. Tall systems up to 40 x 15 through _vnacommon_qrsolve and _vnacommon_qr + _vnacommon_qrsolve2
-   against the exact normal-equation solution of LsSpec.ls_solve (tolerance relative to the
-   conditioning); rank-deficient tall systems must come back with rank < columns when a column is
+   against the exact normal-equation solution of LsSpec.ls_solve, including very tall systems
+   (m = 4n .. 20n, n = 1..8) with graded condition numbers 1e2 .. 1e7 and consistent data, judged by
+   the forward-error bound of a backward-stable solver, LS_C eps (cond|x| + cond^2|r|/|A|), which a
+   solution through the normal equations (cond^2 eps |x|) does not meet; rank-deficient tall systems must come back with rank < columns when a column is
    missing; otherwise rank < columns or astronomically large output.
 """
 import math
@@ -832,6 +834,52 @@ def fgauss_inverse(N):
     return [row[n:] for row in a]
 
 
+def cdivq(a, b):
+    d = b[0] * b[0] + b[1] * b[1]
+    return ((a[0] * b[0] + a[1] * b[1]) / d, (a[1] * b[0] - a[0] * b[1]) / d)
+
+
+def exact_inverse(N):
+    """Gauss-Jordan inverse over the Gaussian rationals (pairs of Fractions); None if singular."""
+    n = len(N)
+    zero, one = (Fraction(0), Fraction(0)), (Fraction(1), Fraction(0))
+    a = [list(row) + [one if i == j else zero for j in range(n)] for i, row in enumerate(N)]
+    for c in range(n):
+        p = next((i for i in range(c, n) if a[i][c] != zero), None)
+        if p is None:
+            return None
+        a[c], a[p] = a[p], a[c]
+        pv = a[c][c]
+        a[c] = [cdivq(x, pv) for x in a[c]]
+        for i in range(n):
+            if i != c and a[i][c] != zero:
+                f = a[i][c]
+                a[i] = [csub(x, cmul(f, y)) for x, y in zip(a[i], a[c])]
+    return [row[n:] for row in a]
+
+
+def kappa_A(A, m, n):
+    """Frobenius condition number of A: sqrt(|N|_F |N^-1|_F) with N = A^H A inverted exactly
+    (so that the estimate stays meaningful up to cond(A) ~ 1e8 and beyond)."""
+    N = [[(Fraction(0), Fraction(0))] * n for _ in range(n)]
+    for i in range(n):
+        for j in range(n):
+            s = (Fraction(0), Fraction(0))
+            for k in range(m):
+                s = cadd(s, cmul((A[k][i][0], -A[k][i][1]), A[k][j]))
+            N[i][j] = s
+    G = exact_inverse(N)
+    if G is None:
+        return float("inf")
+    nf = math.sqrt(sum(cabsf(v) ** 2 for row in N for v in row))
+    gf = math.sqrt(sum(cabsf(v) ** 2 for row in G for v in row))
+    return math.sqrt(nf * gf)
+
+
+LS_C = 100.0     # constant of the least-squares forward-error bound  LS_C * eps * (cond |x| + cond^2 |r| / |A|);
+                 # worst ratio observed on the unchanged code over thousands of systems: about 3
+
+
 def ls_check(ctx, drv, exe, run_both, violation, quick):
     rng = ctx.rng
     shapes = []
@@ -864,6 +912,39 @@ def ls_check(ctx, drv, exe, run_both, violation, quick):
                 X0 = None
                 B = rand_matrix(rng, m, o, 3, 0) if small else rand_matrix(rng, m, o, 12)
             cases.append(dict(kind=kind, m=m, n=n, o=o, A=A, B=B, X0=X0))
+    # very tall systems (m = 4n .. 20n) with graded conditioning: one column is another one plus
+    # 2^-p times a small integer vector, so cond(A) ~ 2^p (1e2 .. 1e7); data consistent (zero
+    # residual), where a backward-stable least-squares solver has forward error ~ cond * eps while
+    # a solution through the normal equations has ~ cond^2 * eps.  Small integers keep the exact
+    # model fast.
+    ill = []
+    for n in range(1, 9):
+        ratios = [4, rng.randint(5, 9), rng.randint(10, 20)] if quick else [4, 5, 6, 8, 11, 15, 20]
+        for ratio in ratios:
+            for p in ([rng.choice([7, 10, 13]), rng.choice([16, 19, 22, 24])] if quick else [7, 10, 13, 16, 19, 22, 24]):
+                if n == 1 and p != 7 and quick:
+                    continue
+                ill.append((ratio * n + rng.randint(0, n - 1 if ratio < 20 else 0), n, p))
+    for (m, n, p) in ill:
+        A = rand_matrix(rng, m, n, 4, 0)
+        if n >= 2:
+            j, k = rng.sample(range(n), 2)
+            for row in A:
+                e = (Fraction(rng.randint(-3, 3)), Fraction(rng.randint(-3, 3)))
+                row[k] = cadd(row[j], (e[0] / 2 ** p, e[1] / 2 ** p))
+        X0 = rand_matrix(rng, n, 1, 3, 0)
+        B = [[(Fraction(0), Fraction(0))] for _ in range(m)]
+        for i in range(m):
+            s0 = (Fraction(0), Fraction(0))
+            for j2 in range(n):
+                s0 = cadd(s0, cmul(A[i][j2], X0[j2][0]))
+            B[i][0] = s0
+        cases.append(dict(kind="consistent", m=m, n=n, o=1, A=A, B=B, X0=X0, graded_p=p))
+    # well-conditioned very tall inconsistent systems
+    for n in ((1, 2, 3, 5, 8) if quick else range(1, 9)):
+        m = rng.randint(4, 20) * n
+        cases.append(dict(kind="inconsistent", m=m, n=n, o=1, A=rand_matrix(rng, m, n, 4, 0),
+                          B=rand_matrix(rng, m, 1, 4, 0), X0=None))
     # rank-deficient tall systems
     for (m, n) in ([(6, 3), (9, 4), (20, 6)] if quick else [(rng.randint(n + 1, 30), n) for n in range(2, 9) for _ in range(3)]):
         for kind in ("zero_col", "dep_col"):
@@ -936,13 +1017,9 @@ def ls_check(ctx, drv, exe, run_both, violation, quick):
                 bad_cons.append((idx, "model"))
             else:
                 stats["consistent_exact"] += 1
-        # conditioning from a floating-point inverse of N = A^H A
+        # conditioning of A (exact inverse of A^H A)
         Af = [[complex(float(a), float(b)) for (a, b) in row] for row in A]
-        N = [[sum(Af[k][i].conjugate() * Af[k][j] for k in range(m)) for j in range(n)] for i in range(n)]
-        G = fgauss_inverse(N)
-        nf = math.sqrt(sum(abs(v) ** 2 for row in N for v in row))
-        gf = math.sqrt(sum(abs(v) ** 2 for row in G for v in row)) if G else float("inf")
-        kappa = nf * gf
+        kappa = kappa_A(A, m, n)
         anorm = math.sqrt(sum(abs(v) ** 2 for row in Af for v in row))
         xnorm = math.sqrt(sum(cabsf(v) ** 2 for v in xm))
         # exact residual of the exact solution
@@ -955,7 +1032,15 @@ def ls_check(ctx, drv, exe, run_both, violation, quick):
                 rs += cabsf(csub(s, B[i][k])) ** 2
         rnorm = math.sqrt(rs)
         bnorm = math.sqrt(sum(cabsf(v) ** 2 for row in B for v in row))
-        tol = 1e3 * m * EPS * kappa * (xnorm + rnorm / anorm) + 1e-300
+        # forward-error bound of a backward-stable least-squares solver (Wedin / Higham 20.1):
+        #   |x^ - x*| <~ eps (cond |x*| + cond^2 |r*| / |A|);  solving through the normal equations
+        #   gives cond^2 eps |x*| even when r* = 0, which this tolerance does not allow
+        base = EPS * (kappa * xnorm + kappa * kappa * rnorm / anorm)
+        tol = LS_C * base + 1e-300
+        hist_k = ctx.extra.setdefault("ls_log10_cond_hist", {})
+        hist_add(hist_k, kappa)
+        if m >= 4 * n:
+            stats["very_tall(m>=4n)"] = stats.get("very_tall(m>=4n)", 0) + 1
         for name, r in zip(("qrsolve", "qr+qrsolve2"), cr):
             xs = r["x"]
             if r["rank"] != n:
@@ -966,6 +1051,9 @@ def ls_check(ctx, drv, exe, run_both, violation, quick):
                 continue
             err = math.sqrt(sum(cabsf((Fraction(a) - u, Fraction(b) - w)) ** 2 for (a, b), (u, w) in zip(xs, xm)))
             hist_add(hist, err / (xnorm or 1.0))
+            if base > 0:
+                ctx.extra["ls_worst_err_over_eps(cond|x|+cond^2|r|/|A|)"] = max(
+                    ctx.extra.get("ls_worst_err_over_eps(cond|x|+cond^2|r|/|A|)", 0.0), err / base)
             if not err <= tol:
                 bad_fe.append((idx, name, err, tol, kappa))
                 continue
@@ -995,7 +1083,7 @@ def ls_check(ctx, drv, exe, run_both, violation, quick):
                 continue
             ctx.count(("ls", name, idx), 0)
         if idx % 9 == 0:
-            ctx.sample({"ls": "%dx%d, %d rhs, %s" % (m, n, o, c["kind"]), "kappa(A^H A)": kappa,
+            ctx.sample({"ls": "%dx%d, %d rhs, %s" % (m, n, o, c["kind"]), "cond(A)": kappa,
                         "x_exact_head": [float(xm[0][0]), float(xm[0][1])], "x_qrsolve_head": list(cr[0]["x"][0]),
                         "rank": cr[0]["rank"]})
     ctx.traces_validated += 2 * len(cases)
@@ -1012,15 +1100,16 @@ def ls_check(ctx, drv, exe, run_both, violation, quick):
     for idx, _ in bad_cons[:1]:
         violation({"kind": "ls-model", "function": "ls_solve"}, "LsSpec.ls_solve does not return the exact solution of a consistent system",
                   replay(idx))
-    ctx.obligation("tie:qrsolve / qr+qrsolve2 vs exact normal-equation solution (tolerance 1e3 m eps kappa(A^H A) (|x| + |r|/|A|); %d systems)"
-                   % stats["full_rank"], not (bad_fe or bad_rank),
+    ctx.obligation("tie:qrsolve / qr+qrsolve2 vs exact normal-equation solution (tolerance %g eps (cond|x| + cond^2|r|/|A|); %d systems, %d with m >= 4n)"
+                   % (LS_C, stats["full_rank"], stats.get("very_tall(m>=4n)", 0)), not (bad_fe or bad_rank),
                    "; ".join("case %d %s" % (b[0], b[1]) for b in (bad_fe + bad_rank)[:3]))
     for idx, name, err, tol, kappa in bad_fe[:1]:
         r = replay(idx)
         r.update({"routine": name, "error": err, "tolerance": tol, "kappa": kappa})
         violation({"kind": "least-squares", "function": name},
-                  "%s: %dx%d least-squares solution differs from the normal-equation solution by %.3g (tolerance %.3g)"
-                  % (name, r["m"], r["n"], err, tol), r)
+                  "%s: %dx%d least-squares solution (cond(A) %.3g) differs from the exact least-squares solution by %.3g; "
+                  "a backward-stable solver stays within %.3g = %g eps (cond|x| + cond^2|r|/|A|)"
+                  % (name, r["m"], r["n"], kappa, err, tol, LS_C), r)
     for idx, name, rank, n in bad_rank[:1]:
         r = replay(idx)
         r.update({"routine": name, "rank": rank})
